@@ -4,4 +4,10 @@ go 1.23
 
 require github.com/rs/zerolog v0.0.0
 
+require (
+	github.com/mattn/go-colorable v0.1.13 // indirect
+	github.com/mattn/go-isatty v0.0.19 // indirect
+	golang.org/x/sys v0.12.0 // indirect
+)
+
 replace github.com/rs/zerolog => /repo
